@@ -147,6 +147,33 @@ def run(pid, mod, chk):
             if not ok:
                 bad += 1
                 sys.stdout.write(stdout[-1500:])
+    # behaviour-preserving refactorings written by independent sub-agents (refactors/<id>-<n>): must stay silent
+    rd = os.path.join(VERIF, "refactors")
+    if os.path.isdir(rd):
+        for name in sorted(os.listdir(rd)):
+            mp = os.path.join(rd, name, "meta.json")
+            patch = os.path.join(rd, name, "patch.diff")
+            if not (os.path.exists(mp) and os.path.exists(patch)):
+                continue
+            with open(mp) as fh:
+                meta = json.load(fh)
+            if meta.get("targets_property") != pid and pid not in meta.get("alarmed_once", []):
+                continue
+            if meta.get("not_equivalent"):
+                continue
+            try:
+                res = run_mutant(patch, [pid])
+            except Exception as e:  # noqa
+                print(f"[{pid}] selftest: refactor {name}: ERROR {e}")
+                bad += 1
+                continue
+            _, rc, viol, stdout = res[0]
+            ok = rc == 0
+            results.append({"independent_refactoring": name, "silent": ok, "keys": [v["key"] for v in viol][:4]})
+            print(f"[{pid}] selftest: refactor {name}: {'silent' if ok else 'FALSE ALARM'}")
+            if not ok:
+                bad += 1
+                sys.stdout.write(stdout[-1500:])
     # append to evidence
     evp = os.path.join(os.environ.get("HV_EVIDENCE_DIR", os.path.join(VERIF, "evidence")), f"{pid}.json")
     try:
